@@ -93,7 +93,7 @@ impl Prop for C08 {
             }
             steps.push(Step { input: Input::Raw(bytes), plan, cfg: 0 });
         }
-        let replicas = vec![Replica { role: "client".into(), entropy: rng.u128(), steps }];
+        let replicas = vec![Replica { role: "client".into(), entropy: rng.u128(), steps, warmup: vec![] }];
         Scenario::Session(Session { docs: vec![], alts: vec![], replicas, opts: vec![] })
     }
     fn exec(&self, sc: &Scenario, ctr: &mut Ctr) -> Result<Exec, String> {
